@@ -451,8 +451,9 @@ fn history_strategy() -> impl Strategy<Value = History> {
                 vec![format!("{p}1"), format!("{p}2"), format!("{p}10"), if case { p.to_uppercase() + "1" } else { format!("{p}-1") }, p.to_string()]
             }),
         ],
-        proptest::collection::vec(1u64..=9999, 1..6),
-        proptest::option::weighted(0.3, 1u64..=9999),
+        // receipt numbers are two BCD bytes: 0000 is as good a number as any other (only ffff means "none")
+        proptest::collection::vec(prop_oneof![8 => 1u64..=9999, 1 => Just(0u64)], 1..6),
+        proptest::option::weighted(0.3, prop_oneof![6 => 1u64..=9999, 1 => Just(0u64)]),
         prop_oneof![3 => proptest::collection::vec(step.clone(), 0..10), 1 => proptest::collection::vec(step, 0..=40)],
         proptest::collection::vec(prop_oneof![3 => Just(RevOut::Completion), 1 => Just(RevOut::Abort(0xa0)), 1 => any::<u8>().prop_map(RevOut::Abort)], 1..4),
         proptest::collection::vec(prop_oneof![4 => Just(RevOut::Completion), 1 => any::<u8>().prop_map(RevOut::Abort)], 1..3),
@@ -473,8 +474,8 @@ pub fn run(prop: &'static str, tier: Tier) -> i32 {
     let base = |max: usize, steps: Vec<HOp>, k: usize| History {
         max,
         tokens: tokens3.clone(),
-        receipts: vec![17, 4242, 17, 9999, 1],
-        dangling: if prop == "C19" && k % 3 == 1 { Some(3001) } else { None },
+        receipts: if k % 7 == 3 { vec![0, 4242, 17, 9999, 1] } else { vec![17, 4242, 17, 9999, 1] },
+        dangling: if prop == "C19" && k % 3 == 1 { Some(if k % 9 == 4 { 0 } else { 3001 }) } else { None },
         steps,
         eod: if prop == "C19" { match k % 4 { 0 => vec![RevOut::Completion], 1 => vec![RevOut::Abort(0xa0)], 2 => vec![RevOut::Abort(0xa1), RevOut::Completion], _ => vec![RevOut::Completion, RevOut::Abort((k % 256) as u8)] } } else { vec![RevOut::Completion] },
         dangling_reversal: if prop == "C19" && k % 5 == 4 { vec![RevOut::Abort(0xb5)] } else { vec![RevOut::Completion] },
@@ -548,6 +549,9 @@ pub fn run(prop: &'static str, tier: Tier) -> i32 {
             }
             if exp.iter().any(|c| matches!(&c.cleanup, Some(cl) if cl.iter().any(|r| matches!(r, ExpReq::PreAuthReversal { .. })))) {
                 st.class("walk:dangling-reversed");
+            }
+            if exp.iter().any(|c| matches!(&c.cleanup, Some(cl) if cl.iter().any(|r| matches!(r, ExpReq::PreAuthReversal { receipt: 0 })))) {
+                st.class("walk:dangling-receipt-0000-reversed");
             }
             if exp.iter().take(h.steps.len()).any(|c| !c.accepted) {
                 st.class("walk:has-refused-call");
